@@ -4,6 +4,7 @@ use super::amo::*;
 use super::asyncp::*;
 use super::cachesnap::*;
 use super::containers::*;
+use super::deep::C04Deep;
 use super::ffi::C17;
 use super::more::*;
 use super::solve::*;
@@ -14,6 +15,11 @@ use crate::runner::{Property, Tier};
 pub enum Profile {
     Release,
     Debug,
+    /// release build, evaluated in a child process: the death of the child (stack overflow,
+    /// abort) is observed by the parent and attributed to the case that was running
+    Isolated,
+    /// the same with the debug-assertions binary as the child
+    IsolatedDebug,
 }
 
 pub struct Stage {
@@ -72,19 +78,23 @@ pub fn stages(id: &str) -> Vec<Stage> {
             st(C01 { params: Params::conflict_heavy().with_soft(3, 150), stage: "release", async_weight: 3 }, 20_000, 1_000_000, Release),
             st(C01 { params: Params::default().with_soft(3, 150), stage: "release-rich", async_weight: 3 }, 10_000, 500_000, Release),
             st(C01 { params: Params::conflict_heavy().with_soft(3, 150), stage: "debug", async_weight: 3 }, 6_000, 300_000, Debug),
-            st(C01 { params: Params::huge_package(5000).with_soft(2, 100), stage: "huge", async_weight: 3 }, 300, 6_000, Release),
+            st(C01 { params: Params::huge_package(5000).with_soft(2, 100), stage: "huge", async_weight: 3 }, 150, 3_000, Release),
         ],
         "C02" => vec![
             st(C02 { params: Params::conflict_heavy().env_override(), stage: "main", variants: 4 }, 15_000, 600_000, Release),
             st(C02 { params: Params::assertion_heavy(), stage: "assertions", variants: 3 }, 10_000, 400_000, Release),
+            st_x(C04Deep { id: "C02", stage: "deep-chain", max_depth: 16_384, max_soft: 70_000 }, 2, 8, Isolated),
         ],
         "C03" => vec![
             st(C03 { params: Params::conflict_heavy(), stage: "main" }, 20_000, 800_000, Release),
+            st(C03 { params: Params::deep_conflict().env_override(), stage: "deep" }, 20_000, 800_000, Release),
         ],
         "C04" => vec![
             st(C04 { params: Params::default().hint_heavy().with_soft(4, 250), stage: "release" }, 20_000, 800_000, Release),
             st(C04 { params: Params::default().hint_heavy().with_soft(4, 250), stage: "debug" }, 20_000, 800_000, Debug),
             st(C04 { params: Params::cyclic(), stage: "cycles" }, 20_000, 800_000, Release),
+            st_x(C04Deep { id: "C04", stage: "deep-chain", max_depth: 16_384, max_soft: 70_000 }, 3, 8, Isolated),
+            st_x(C04Deep { id: "C04", stage: "deep-chain-debug", max_depth: 6_000, max_soft: 70_000 }, 2, 8, IsolatedDebug),
         ],
         "C05" => vec![
             st(C05 { params: Params::conflict_heavy().with_soft(2, 100), stage: "main" }, 60_000, 1_500_000, Release),
@@ -97,7 +107,7 @@ pub fn stages(id: &str) -> Vec<Stage> {
             st(C07 { params: Params::default(), stage: "main" }, 20_000, 800_000, Release),
             st(C07 { params: Params { max_pkgs: 20, min_pkgs: 8, ..Params::default() }, stage: "large" }, 5_000, 200_000, Release),
             st(C07 { params: Params { min_pkgs: 100, max_pkgs: 160, max_cands: 4, max_reqs: 2, max_constrains: 1, min_root_reqs: 20, max_root_reqs: 60, ..Params::default() }, stage: "wide" }, 300, 6_000, Release),
-            st(C07 { params: Params::huge_package(6000), stage: "huge" }, 500, 10_000, Release),
+            st(C07 { params: Params::huge_package(6000), stage: "huge" }, 150, 3_000, Release),
         ],
         "C08" => vec![
             st(C08 { params: Params::conflict_heavy(), stage: "main", constructed: false }, 20_000, 800_000, Release),
